@@ -51,6 +51,14 @@ CHECKS.update({
              "that a flagged parent survives every flush/pickle/merge path is only sampled", "DESIGN.md §5 C49"),
     "C55": B("the pure-Python and compiled builds of the _*_cy modules are each checked against the same contracts (OrderedSet, IdentitySet, immutabledict, processors, _distill_params, BaseRow, result, anon_map) in two fresh processes and every case compared across builds; a stale .so is reported as not evaluated. Bounded exploration.",
              "Cython is not installed: the .so cannot be rebuilt from an edited source; freshness decided from the source lines embedded in the generated .c", "DESIGN.md §5 C55"),
+    "C11": B("postcondition of CursorResultMetaData key-map construction evaluated on real rows: lookup by column object / label / string returns the value at that expression's position or raises the ambiguity error, never another column's value; 15-expression pool x 9 statement shapes x 3 label styles x label_length, SQLite and a stub cursor for 5 dialects, second execution through the compiled cache. Bounded exploration.",
+             "assumed DBAPI contract: columns arrive in SELECT-list order; other backends' naming via the stub cursor only", "DESIGN.md §5 C11"),
+    "C12": B("generator contract of SQLCompiler._deliver_insertmanyvalues_batches (concatenation of batches == parameters, batch sizes within limits, batch numbers count up) on 10 dialect/paramstyle objects, sentinel re-ordering against permuted RETURNING rows, and SQLite execution. Bounded exploration.",
+             "the server inserts what the statement says", "DESIGN.md §5 C12"),
+    "C17": B("calling the user function directly is the spec function: after every invocation in every sequence <= 3 (quick) / 5 (thorough) over 19 lambda shapes sharing the code-object / closure / compiled caches, SQL, parameters sent to the DBAPI and rows equal those of the directly built statement. Bounded exploration.",
+             "bytecode analysis is CPython-3.12 specific", "DESIGN.md §5 C17"),
+    "C51": B("inverse-pair contracts view(loads(dumps(x))) == view(x) with per-type abstraction functions for InstanceState (44 states x protocols 2-5, and __setstate__(__getstate__) without pickle), rows, frozen results, MetaData, loader options, ext.serializer statements. Bounded exploration.",
+             "pickle itself; 'executes to the same results' is outside", "DESIGN.md §5 C51"),
     "C20": B("inverse-pair contract make_url(u.render_as_string(hide_password=False)) == u on the real URL functions over ~3e5 URLs (all strings <= 3 of an adversarial alphabet per component, interacting pairs, hosts/ports table). Bounded exploration.",
              "urllib.parse quote/unquote and re are CPython's; canonical query forms only", "DESIGN.md §5 C20"),
     "C23": B("ghost nested-transaction model evaluated after every step of every operation sequence <= 5 (quick) / 6 (thorough) over 20 Connection/Transaction operations on file-backed SQLite with an independent observer connection. Bounded exploration.",
